@@ -158,6 +158,57 @@ end ALock.Barrier
 
 /-! ## Where the notifications are sent (generated site table) -/
 
+namespace ALock.Barrier
+
+/-! ### `wait_blocking`: a parked thread is a re-polled task
+
+`wait_blocking` runs the same `poll_with_strategy` with the `Blocking` strategy.  A thread parked in
+`WaitState::Waiting` resumes *inside* `strategy.poll(evl)` — its listener has fired and `wait()` has
+consumed it —, then takes the state mutex (`Reacquiring`), and either returns as a follower or
+listens again and parks on the new listener (the unparker plays the part of the waker `t`).
+`resumeBlocking` is that code path, written from the source; `C09_blocking_is_poll` proves that it
+changes the barrier exactly as the poll of a notified `wait()` future does, so every theorem about
+histories of polls also covers threads parked in `wait_blocking`.  The arrival (`Initial`) is the
+same code for both strategies: parking on the fresh listener registers the unparker, which is what
+`Ev.setTask (Ev.listen …)` says. -/
+
+/-- a thread parked in `wait_blocking` (arrived in generation `lg`) resumes -/
+def resumeBlocking (s : Sys) (f lg t : Nat) : PRes :=
+  -- `listener.wait()` returned: the entry is gone from the list
+  let s1 := { s with q := Ev.erase s.q f }
+  -- `Reacquiring`: the state mutex is taken (free between operations), the guard dropped at the end
+  if lg = s.gen && s.count < s.n then
+    -- `evl = event.listen()`, back to `Waiting`: park on the new listener
+    ⟨{ s1 with q := Ev.setTask (Ev.listen s1.q f) f t }, .waiting lg, .pending⟩
+  else ⟨s1, .done, .follower⟩
+
+/-- **C09 (blocking form is covered).** For a waiter whose listener is notified — the only
+situation in which a parked thread resumes — the blocking code path and the poll of the
+corresponding future are the same transformation of the barrier. -/
+theorem C09_blocking_is_poll (s : Sys) (fu : Fut) (lg t : Nat) (hpc : fu.pc = .waiting lg)
+    (hn : Ev.isNotified s.q fu.id = true) :
+    resumeBlocking s fu.id lg t = pollWait s fu t := by
+  unfold resumeBlocking pollWait
+  simp only [hpc, hn, Bool.not_true, Bool.false_eq_true, if_false]
+
+/-- and a parked thread whose listener is *not* notified does not run at all: the poll that stands
+for it (a spurious wake-up) leaves count, generation and the set of registered waiters unchanged -/
+theorem C09_blocking_spurious (s : Sys) (fu : Fut) (lg t : Nat) (hpc : fu.pc = .waiting lg)
+    (hn : Ev.isNotified s.q fu.id = false) :
+    (pollWait s fu t).out = .pending ∧ (pollWait s fu t).s.count = s.count ∧
+    (pollWait s fu t).s.gen = s.gen ∧ (pollWait s fu t).pc = .waiting lg ∧
+    (pollWait s fu t).s.woken = s.woken := by
+  unfold pollWait
+  simp [hpc, hn]
+
+/-- non-vacuity: n = 2, wait 0 parked, wait 1 arrives as leader; the parked thread resumes as follower -/
+example :
+    let s := run { n := 2 } [.start 0, .poll 0 0, .start 1, .poll 1 4]
+    Ev.isNotified s.q 0 = true ∧ (resumeBlocking s 0 0 0).out = .follower ∧
+    (resumeBlocking s 0 0 0).s.q = [] := by decide
+
+end ALock.Barrier
+
 namespace ALock.Atomic.Calls
 
 /-- every `listen` / `notify` of `src/barrier.rs`, in source order (generated table) -/
